@@ -97,7 +97,7 @@ class Item(object):
         self.obj, self.val, self.flags = obj, val, set(flags)
 
 
-POINT_OPS = ("x", "y", "scale", "to_affine", "add", "radd", "double", "neg", "eq", "ne", "mul", "rmul", "mul_add", "from_affine", "pickle", "state_copy", "deepcopy")
+POINT_OPS = ("x", "y", "scale", "to_affine", "add", "radd", "double", "neg", "eq", "ne", "mul", "rmul", "mul_add", "from_affine", "pickle", "state_copy", "deepcopy", "copy")
 
 
 def fresh(cfp, cv, P, order):
@@ -204,6 +204,10 @@ def walk(ctx, dom, cfp, fam, steps, ordN):
                 c2 = PointJacobi.__new__(PointJacobi)
                 c2.__setstate__(A.__getstate__())
                 res, exp = c2, a.val
+            elif op == "copy":
+                res, exp = copy.copy(A), a.val          # shallow: shares the table list with the original
+                if A is INFINITY:
+                    res, exp, is_point = (res == INFINITY), True, False
             elif op == "deepcopy":
                 res, exp = copy.deepcopy(A), a.val
                 if A is INFINITY:
